@@ -645,7 +645,29 @@ def r22(ctx):
         raise AnalysisBroken('C20.R22: only %d request allocations found in bushandler.cpp' % n)
 
 
+def r30(ctx):
+    ctx.rule('C20.R30', 'a deleted message leaves no pointer behind: MessageMap::remove takes the message out of the name index by '
+             'walking over the whole m_messagesByName (every key, every element of each list) - add() stores a message under two '
+             'keys and, for conditional messages, anywhere in the list of the key without circuit; a removal that looks at the '
+             'front of that list only leaves a dangling pointer that find() by name dereferences', minimum=1)
+    fb = ctx.fb
+    fn = fb.fn('ebusd::MessageMap::remove')
+    ctx.touch(fn)
+    walks = []
+    for l in fn.all('CXXForRangeStmt'):
+        rng = fn.key(fn.nodes[l].get('range', -1))
+        if rng.endswith('m_messagesByName'):
+            walks.append(l)
+    for l in fn.all('ForStmt', 'WhileStmt'):
+        srcs = [fn.key(r2) for n2, d2, r2, o2, l2 in fn.assignments() if r2 is not None and 'm_messagesByName.begin()' in fn.key(r2)]
+        if srcs and 'm_messagesByName.end()' in fn.key(fn.nodes[l].get('cond', -1)):
+            walks.append(l)
+    ok = bool(walks)
+    ctx.ob('C20.R30', fn, walks[0] if walks else fn.body, ok, 'removal from the name index', 'walks over every entry of m_messagesByName: %s' % ok)
+
+
 def run(ctx):
+    r30(ctx)
     import rules.common as _cms
     ctx.rule('C20.R28', 'a failure reported as -1 stays negative: in the sources of this property the result of a POSIX call that reports errors as -1 (read, write, recv, send, poll, open, socket, ioctl, ...) is not converted to an unsigned type where it is stored or tested (equality with the requested length excepted) - held in a size_t a failed read counts as SIZE_MAX received bytes, the buffered length runs past the 32 byte receive buffer and the decoder reads far beyond it', minimum=30)
     _cms.signed_result_rule(ctx, 'C20.R28', lambda f: f.relfile.startswith(('src/lib/ebus/', 'src/lib/utils/', 'src/ebusd/')), 30)
